@@ -33,6 +33,10 @@ pub struct Sc {
     /// where `.seed(n)` is called among the builder's setters: 0 first, 1 last, 2 in the middle
     #[serde(default)]
     pub seed_pos: u8,
+    /// how many objects are built one after the other from the one seeded builder
+    /// (0 and 1 both mean one): `seed(s); build(); build(); …` must be reproducible as a whole
+    #[serde(default)]
+    pub batch: u8,
 }
 
 pub struct C19;
@@ -45,7 +49,8 @@ enum Obj {
     Graph(Snap),
 }
 
-fn build(gen: &Gen, seed: u64, seed_pos: u8) -> Obj {
+fn build(gen: &Gen, seed: u64, seed_pos: u8, batch: u8) -> Vec<Obj> {
+    let k = batch.max(1) as usize;
     match gen {
         Gen::Random { qubits, depth, p, preset } => {
             let mut b = Circuit::random();
@@ -75,7 +80,7 @@ fn build(gen: &Gen, seed: u64, seed_pos: u8) -> Obj {
             if seed_pos == 1 {
                 b.seed(seed);
             }
-            Obj::Circ(b.build())
+            (0..k).map(|_| Obj::Circ(b.build())).collect()
         }
         Gen::HiddenShift { qubits, clifford_depth, n_ccz } => {
             let mut b = Circuit::random_hidden_shift();
@@ -90,8 +95,12 @@ fn build(gen: &Gen, seed: u64, seed_pos: u8) -> Obj {
             if seed_pos == 1 {
                 b.seed(seed);
             }
-            let (c, s) = b.build();
-            Obj::CircShift(c, s)
+            (0..k)
+                .map(|_| {
+                    let (c, s) = b.build();
+                    Obj::CircShift(c, s)
+                })
+                .collect()
         }
         Gen::PauliGadget { qubits, depth, min_weight, max_weight, phase_denom } => {
             let mut b = Circuit::random_pauli_gadget();
@@ -106,7 +115,7 @@ fn build(gen: &Gen, seed: u64, seed_pos: u8) -> Obj {
             if seed_pos == 1 {
                 b.seed(seed);
             }
-            Obj::Circ(b.build())
+            (0..k).map(|_| Obj::Circ(b.build())).collect()
         }
         Gen::StabState { qubits, hash_backend } => {
             let mut b = EquatorialStabilizerStateBuilder::new();
@@ -117,29 +126,37 @@ fn build(gen: &Gen, seed: u64, seed_pos: u8) -> Obj {
             if seed_pos == 1 {
                 b.seed(seed);
             }
-            if *hash_backend {
-                let g: quizx::hash_graph::Graph = b.build();
-                Obj::Graph(Snap::of(&g))
-            } else {
-                let g: quizx::vec_graph::Graph = b.build();
-                Obj::Graph(Snap::of(&g))
-            }
+            (0..k)
+                .map(|_| {
+                    if *hash_backend {
+                        let g: quizx::hash_graph::Graph = b.build();
+                        Obj::Graph(Snap::of(&g))
+                    } else {
+                        let g: quizx::vec_graph::Graph = b.build();
+                        Obj::Graph(Snap::of(&g))
+                    }
+                })
+                .collect()
         }
         Gen::SurfaceCode { distance, rounds } => {
-            Obj::Circ(Circuit::surface_code().distance(*distance).rounds(*rounds).build())
+            let b = Circuit::surface_code().distance(*distance).rounds(*rounds).build();
+            (0..k).map(|_| Obj::Circ(b.clone())).collect()
         }
     }
 }
 
-fn obj_digest(o: &Obj) -> u64 {
+fn obj_digest(o: &[Obj]) -> u64 {
     hash_str(&format!("{:?}", o))
 }
 
-fn obj_size(o: &Obj) -> usize {
-    match o {
-        Obj::Circ(c) | Obj::CircShift(c, _) => c.num_gates(),
-        Obj::Graph(s) => s.verts.len() / 2,
-    }
+fn obj_size(o: &[Obj]) -> usize {
+    o.iter()
+        .map(|o| match o {
+            Obj::Circ(c) | Obj::CircShift(c, _) => c.num_gates(),
+            Obj::Graph(s) => s.verts.len() / 2,
+        })
+        .min()
+        .unwrap_or(0)
 }
 
 fn gate_to_h(g: &quizx::gate::Gate) -> Option<HGate> {
@@ -374,7 +391,7 @@ impl C19 {
 /// Child-process entry: build and print the digest of the object.
 pub fn child_gen(spec: &str) -> i32 {
     let sc: Sc = serde_json::from_str(spec).expect("spec json");
-    let r = std::panic::catch_unwind(|| build(&sc.gen, sc.seed, sc.seed_pos));
+    let r = std::panic::catch_unwind(|| build(&sc.gen, sc.seed, sc.seed_pos, sc.batch));
     match r {
         Ok(o) => println!("OBJ {:016x}", obj_digest(&o)),
         Err(_) => println!("OBJ panic"),
@@ -482,7 +499,7 @@ impl Property for C19 {
             "stab_state" => Gen::StabState { qubits: 1 + d.choose("ss.q", 8), hash_backend: d.coin("ss.hb", 1, 2) },
             _ => Gen::SurfaceCode { distance: 2 + d.choose("sc.d", 3), rounds: d.choose("sc.r", 4) },
         };
-        Sc { gen, seed, via_child: d.coin("child", 1, 12), seed_pos: d.choose("seedpos", 3) as u8 }
+        Sc { gen, seed, via_child: d.coin("child", 1, 12), seed_pos: d.choose("seedpos", 3) as u8, batch: 1 + d.choose("batch", 3) as u8 }
     }
 
     fn execute(&self, sc: &Sc, _sub: &str, exec: Decider, env: &Env) -> RunOut {
@@ -502,7 +519,8 @@ impl Property for C19 {
         let g1 = sc.gen.clone();
         let seed = sc.seed;
         let sp = sc.seed_pos;
-        let (res, core) = with_sim(core, move || (build(&g1, seed, sp), build(&g1, seed, (sp + 1) % 3)));
+        let bt = sc.batch;
+        let (res, core) = with_sim(core, move || (build(&g1, seed, sp, bt), build(&g1, seed, (sp + 1) % 3, bt)));
         let dec = core.dec;
         out.steps += 2;
         out.count("ambient_draws_during_seeded_build", core.stats.rng_draws);
@@ -539,7 +557,7 @@ impl Property for C19 {
         }
         if a != b {
             out.violations.push(
-                Violation::new("not_reproducible", format!("{:?} seed {}: two builds in one thread (with .seed() called at different positions among the setters) differ", sc.gen, sc.seed))
+                Violation::new("not_reproducible", format!("{:?} seed {}: two builders with the same seed and parameters (.seed() called at different positions among the setters), each building a batch of {} objects, disagree", sc.gen, sc.seed, sc.batch.max(1)))
                     .with("generator", name)
                     .with("where", "same_thread"),
             );
@@ -547,7 +565,7 @@ impl Property for C19 {
         // (ii) another OS thread
         {
             let g2 = sc.gen.clone();
-            let h = std::thread::spawn(move || std::panic::catch_unwind(|| build(&g2, seed, sp)).ok());
+            let h = std::thread::spawn(move || std::panic::catch_unwind(|| build(&g2, seed, sp, bt)).ok());
             match h.join() {
                 Ok(Some(c)) => {
                     out.probe("other_thread_compared");
@@ -588,8 +606,16 @@ impl Property for C19 {
                 );
             }
         }
-        // promises
-        self.judge(sc, &a, &mut out);
+        // promises, on every object of the batch
+        for o in &a {
+            self.judge(sc, o, &mut out);
+        }
+        if a.len() >= 2 {
+            out.probe("batch_of_builds_from_one_builder");
+            if a[0] != a[1] {
+                out.probe("batch_objects_differ_from_each_other");
+            }
+        }
         // non-triviality: neighbouring seeds differ
         let big = obj_size(&a) >= match sc.gen {
             Gen::StabState { .. } => 3,
@@ -598,8 +624,8 @@ impl Property for C19 {
         if big && !matches!(sc.gen, Gen::SurfaceCode { .. }) {
             let g3 = sc.gen.clone();
             let (s1, s2) = (sc.seed.wrapping_add(1), sc.seed.wrapping_sub(1));
-            if let Ok((x, y)) = std::panic::catch_unwind(move || (build(&g3, s1, sp), build(&g3, s2, sp))) {
-                out.nontrivial = x != a && y != a;
+            if let Ok((x, y)) = std::panic::catch_unwind(move || (build(&g3, s1, sp, 1), build(&g3, s2, sp, 1))) {
+                out.nontrivial = x[0] != a[0] && y[0] != a[0];
             }
         }
         if matches!(sc.gen, Gen::SurfaceCode { .. }) {
